@@ -41,19 +41,31 @@ def law_of(mod):
 
 
 def bind(g, mod, law):
-    """Tie parameters and result of the function to symbols of the law -> ({param: symbol}, result symbol) | reason."""
+    """Tie parameters and result of the function to symbols of the law
+    -> ({param: symbol | indexed base}, result symbol) | reason."""
     import sympy as sp
-    syms = set(law.free_symbols)
+    from sympy.tensor.indexed import Idx, Indexed
+    bases = {a.base for a in law.atoms(Indexed)}
+    labels = {getattr(b, "label", None) for b in bases}
+    syms = {x for x in law.free_symbols if isinstance(x, sp.Symbol) and not isinstance(x, (Idx, Indexed))
+            and x not in labels}
     by_attr = {name: v for name, v in vars(mod).items() if isinstance(v, sp.Symbol) and v in syms}
+    from sympy.tensor.indexed import IndexedBase
+    base_by_attr = {name: v for name, v in vars(mod).items() if isinstance(v, IndexedBase) and v in bases}
     binding = {}
     for p in g.params:
         decl = g.inputs.get(p)
+        stem = p.rstrip("_")
         if isinstance(decl, sp.Symbol) and decl in syms:
             binding[p] = decl
-        elif p.rstrip("_") in by_attr:
-            binding[p] = by_attr[p.rstrip("_")]
+        elif isinstance(decl, IndexedBase) and decl in bases:
+            binding[p] = decl
+        elif stem in by_attr:
+            binding[p] = by_attr[stem]
+        elif stem in base_by_attr or stem.rstrip("s") in base_by_attr:
+            binding[p] = base_by_attr.get(stem) or base_by_attr[stem.rstrip("s")]
         else:
-            return f"parameter cannot be tied to a law symbol"
+            return "parameter cannot be tied to a law symbol"
     if len(set(binding.values())) != len(binding):
         return "two parameters tied to the same symbol"
     out = None
@@ -67,16 +79,34 @@ def bind(g, mod, law):
             out = next(iter(rest))
     if out is None or out in binding.values():
         return "result cannot be tied to a law symbol"
-    if syms - set(binding.values()) - {out}:
+    if (syms | bases) - set(binding.values()) - {out}:
         return "law has symbols that are neither parameters nor the result"
     return binding, out
 
 
-def compile_side(e, symidx, out):
+def compile_side(e, symidx, out, at=None):
+    """symidx: symbol -> leaf index, (indexed base, k) -> leaf index of element k; at: {idx: k} inside a sum."""
     import sympy as sp
     from sympy.physics.units import Quantity as SymQuantity
-    if e in symidx:
+    from sympy.tensor.indexed import Indexed
+    name = type(e).__name__
+    if not isinstance(e, Indexed) and e in symidx:
         out.append(["sym", symidx[e], 0])
+    elif isinstance(e, Indexed):
+        if at is None or len(e.indices) != 1 or e.indices[0] not in at or (e.base, at[e.indices[0]]) not in symidx:
+            raise Unsupported("indexed symbol outside a sum over its own sequence")
+        out.append(["sym", symidx[(e.base, at[e.indices[0]])], 0])
+    elif name in ("IndexedSum", "IndexedProduct"):
+        body, idx = e.args[0], e.args[1]
+        lens = {sum(1 for key in symidx if isinstance(key, tuple) and key[0] == a.base) for a in body.atoms(Indexed)}
+        if len(lens) != 1:
+            raise Unsupported("indexed sum over sequences of different lengths")
+        n = lens.pop()
+        if n == 0:
+            raise Unsupported("empty sequence")
+        for k in range(n):
+            compile_side(body, symidx, out, {**(at or {}), idx: k})
+        out.append(["add" if name == "IndexedSum" else "mul", n, 0])
     elif e.is_Integer:
         if abs(int(e)) >= 2**31 - 1:
             raise Unsupported("huge integer literal")
@@ -89,14 +119,14 @@ def compile_side(e, symidx, out):
         out.append(["cst", 1, 0])
     elif isinstance(e, sp.Add):
         for a in e.args:
-            compile_side(a, symidx, out)
+            compile_side(a, symidx, out, at)
         out.append(["add", len(e.args), 0])
     elif isinstance(e, sp.Mul):
         for a in e.args:
-            compile_side(a, symidx, out)
+            compile_side(a, symidx, out, at)
         out.append(["mul", len(e.args), 0])
     elif isinstance(e, sp.Pow) and e.exp.is_Integer and abs(int(e.exp)) <= 64:
-        compile_side(e.base, symidx, out)
+        compile_side(e.base, symidx, out, at)
         out.append(["powi", int(e.exp), 0])
     elif isinstance(e, SymQuantity):
         raise Unsupported("physical constant inside the law")
@@ -169,14 +199,7 @@ def records_for(g, mod, seed, tuples):
     if isinstance(b, str):
         return [], [b]
     binding, out_sym = b
-    order = [binding[p] for p in g.params] + [out_sym]
-    symidx = {s: i + 1 for i, s in enumerate(order)}
-    try:
-        a_prog, b_prog = [], []
-        compile_side(law.lhs, symidx, a_prog)
-        compile_side(law.rhs, symidx, b_prog)
-    except Unsupported as u:
-        return [], [f"law outside the arithmetic fragment: {u}"]
+    seq_params = [p for p in g.params if not isinstance(binding[p], sp.Symbol)]
     try:
         src = inspect.getsource(g.func)
     except OSError:
@@ -184,9 +207,22 @@ def records_for(g, mod, seed, tuples):
     alt = any(w in src for w in ("abs(", "Abs(", "vector_magnitude"))
     if "ceiling" in src or "floor(" in src:
         return [], ["rounded result (ceiling/floor)"]
+    import re
+    if re.search(r"\b(min|max|sorted)\(", src):
+        # e.g. the spherical capacitor orders its two radii itself: which argument stands for which symbol
+        # is decided inside the function, so the parameter -> symbol binding is not fixed
+        return [], ["function reorders its arguments (min/max): parameter-symbol binding not fixed"]
     recs, und = [], []
+    seq_lengths = [2, 3, 4, 1, 3, 2]
     for tup in range(tuples):
         base = catalogue.synth_arguments(seed + 1000 * tup, g, exact=True)
+        for p in seq_params:        # sequences of different lengths from call to call (history matters, too)
+            dim = catalogue.declared_dimension(g.inputs.get(p))
+            if dim is None or isinstance(dim, list):
+                base[p] = catalogue.UNKNOWN
+                continue
+            base[p] = [catalogue.quantity_of(sp.Rational(*catalogue.synth_value(seed + 1000 * tup, g, p, i).as_integer_ratio()), dim)
+                       for i in range(seq_lengths[tup % len(seq_lengths)])]
         if any(v is catalogue.UNKNOWN for v in base.values()):
             und.append("arguments cannot be synthesised")
             break
@@ -200,9 +236,28 @@ def records_for(g, mod, seed, tuples):
         except Exception as e:  # pylint: disable=broad-except
             und.append(f"call rejected the synthesised arguments ({type(e).__name__})")
             continue
-        vals = []
+        # leaves: scalars and sequence elements in parameter order, the result last
+        order, symidx = [], {}
         for p in g.params:
-            v = si_rational(args[p])
+            if p in seq_params:
+                for k2, elem in enumerate(args[p]):
+                    order.append(elem)
+                    symidx[(binding[p], k2)] = len(order)
+            else:
+                order.append(args[p])
+                symidx[binding[p]] = len(order)
+        order.append(res)
+        symidx[out_sym] = len(order)
+        try:
+            a_prog, b_prog = [], []
+            compile_side(law.lhs, symidx, a_prog)
+            compile_side(law.rhs, symidx, b_prog)
+        except Unsupported as u:
+            und.append(f"law outside the arithmetic fragment: {u}")
+            break
+        vals = []
+        for x in order[:-1]:
+            v = si_rational(x)
             if v is None or v[1] != 0:
                 vals = None
                 break
@@ -233,7 +288,7 @@ def records_for(g, mod, seed, tuples):
                      "pt1": [x[0] for x in pts], "pt2": [x[1] for x in pts], "alt": alt,
                      "pta1": [x[0] for x in pts[:-1]] + [ptn[0]], "pta2": [x[1] for x in pts[:-1]] + [ptn[1]],
                      "_info": {"function": g.qualname, "law": f"{lname}: {law}"[:300],
-                               "arguments": {p: str(args[p]) for p in g.params}, "si_values": [str(v) for v in vals],
+                               "arguments": {p: str(args[p])[:200] for p in g.params}, "si_values": [str(v) for v in vals],
                                "result": str(res), "result_si": f"{rfr}" + (f"*pi**{k}" if k else "")}})
     return recs, und
 
